@@ -83,10 +83,15 @@ def gen_sketch(rs: Stream, kind: str, o, ax, pr, R) -> Dict[str, Any]:
     raise ValueError(kind)
 
 
-def gen_entity(rs: Stream) -> Tuple[List[Dict[str, Any]], List[str]]:
-    """-> (construction ops, names of the entities to add)"""
+FIXED_AXIS = ("wedge", "revolve", "rstack", "estack", "revolved")  # built round the global axes: moved afterwards, if at all
+
+
+def gen_entity(rs: Stream, offset=None, name: str = "s0") -> Tuple[List[Dict[str, Any]], List[str]]:
+    """-> (construction ops, names of the entities to add); `offset` puts the entity somewhere else"""
     kind = rs.weighted(KINDS)
     o = [round(rs.uniform(-3, 3), 3) for _ in range(3)]
+    if offset and kind not in FIXED_AXIS:
+        o = [round(o[i] + offset[i], 3) for i in range(3)]
     ax = _unit([rs.uniform(-1, 1) for _ in range(3)]) if rs.chance(0.6) else [0.0, 0.0, 1.0]
     L = round(rs.uniform(0.8, 2.5), 3)
     R = round(rs.uniform(0.5, 1.5), 3)
@@ -155,7 +160,9 @@ def gen_entity(rs: Stream) -> Tuple[List[Dict[str, Any]], List[str]]:
     else:
         raise ValueError(kind)
     op: Dict[str, Any] = {"op": "zoo", "name": "s0", "kind": kind, "args": a}
-    if kind not in ("wedge", "shell", "connector") and rs.chance(0.3):
+    if offset and kind in FIXED_AXIS:
+        op["transforms"] = [{"t": "translate", "d": [float(x) for x in offset]}]
+    elif kind not in ("wedge", "shell", "connector") and rs.chance(0.3):
         tfs = []
         if rs.chance(0.6):
             tfs.append({"t": "rotate", "angle": round(rs.uniform(-2, 2), 3), "axis": _r(_unit([rs.uniform(-1, 1) for _ in range(3)]), 6), "origin": _r(o)})
@@ -177,8 +184,10 @@ def snapshot_entities(it: Interp, names: List[str]):
     return out
 
 
-def gen_zoo_program(rs: Stream, cfg_seed: int, dict_path: str, vtk_path: str) -> Dict[str, Any]:
-    ops, names = gen_entity(rs.sub("entity"))
+def entity_with_chops(rs: Stream, cfg_seed: int, mode=None, offset=None):
+    """-> (construction ops, chop ops, entity names, snapshot, meta); chops placed per edge family.
+    mode: complete / omit / conflict (drawn when None)"""
+    ops, names = gen_entity(rs.sub("entity"), offset)
     kind = ops[0]["kind"]
     meta = {"shapes": "zoo:" + kind, "cfg_seed": cfg_seed}
     it = Interp({"points": {}, "ops": ops})
@@ -187,7 +196,7 @@ def gen_zoo_program(rs: Stream, cfg_seed: int, dict_path: str, vtk_path: str) ->
         snap = snapshot_entities(it, names)
     except Exception as e:  # noqa: BLE001 - the entity cannot be built from these arguments: an empty program
         meta["category"] = "construction-failed:" + type(e).__name__
-        return {"points": {}, "ops": ops, "meta": meta}
+        return ops, [], names, None, meta
     allpos: List[List[float]] = []
     for (_, _, pts, _) in snap:
         allpos += pts
@@ -196,12 +205,12 @@ def gen_zoo_program(rs: Stream, cfg_seed: int, dict_path: str, vtk_path: str) ->
         # (seen with connectors between tilted boxes: an operation with coincident corners is no hexahedron -
         # how a connector picks its faces is not this check's subject)
         meta["category"] = "construction-failed:degenerate-operation"
-        return {"points": {}, "ops": ops, "meta": meta}
+        return ops, [], names, None, meta
     blocks = [models.RefBlock(f"{n}[{j}]", ids[8 * k:8 * k + 8], {}) for k, (n, j, _, _) in enumerate(snap)]
     asm = models.Assembly(blocks)
     fams = asm.families()
     cr = rs.sub("chops")
-    mode = cr.weighted([("complete", 6), ("omit", 2.5), ("conflict", 1.5)])
+    mode = mode or cr.weighted([("complete", 6), ("omit", 2.5), ("conflict", 1.5)])
     roots = sorted(fams)
     omit = set(cr.sample(roots, min(len(roots), cr.randint(1, 2)))) if mode == "omit" else set()
     multi = [r_ for r_ in roots if len(fams[r_]) >= 2]
@@ -228,6 +237,14 @@ def gen_zoo_program(rs: Stream, cfg_seed: int, dict_path: str, vtk_path: str) ->
                 chops.append({"op": "chop", "target": nme, "axis": a, "args": args})
             else:
                 chops.append({"op": "sub_chop", "target": nme, "index": j, "axis": a, "args": args})
+    meta["category"] = mode
+    return ops, chops, names, snap, meta
+
+
+def gen_zoo_program(rs: Stream, cfg_seed: int, dict_path: str, vtk_path: str) -> Dict[str, Any]:
+    ops, chops, names, snap, meta = entity_with_chops(rs, cfg_seed)
+    if snap is None:
+        return {"points": {}, "ops": ops, "meta": meta}
     cs = Stream(cfg_seed, "config", "zoo")
     ops = ops + cs.shuffled(chops)
     for nme in cs.shuffled(names):
@@ -244,5 +261,4 @@ def gen_zoo_program(rs: Stream, cfg_seed: int, dict_path: str, vtk_path: str) ->
             ops.append({"op": "remesh"})
             ops.append({"op": "assemble"})
         ops.append({"op": "write", "path": dict_path + ".second"})
-    meta["category"] = mode
     return {"points": {}, "ops": ops, "meta": meta}
